@@ -39,6 +39,10 @@ pub struct Norm<'a> {
     pub errors: Vec<String>,
     pub closure_depth: usize,
     pub canaries: Vec<String>,
+    pub omap: crate::align::OrdMap,
+    pub sigs: crate::align::Sigs,
+    pub woven: BTreeSet<String>,
+    pub pending_loop_sig: Option<String>,
     /// R-STRSLICE: parameters whose declared type is `&str`
     pub str_idents: BTreeSet<String>,
     /// R-ITER(for): parameters whose (overridden) type is the `VxIter` model type
@@ -61,7 +65,7 @@ impl<'a> Norm<'a> {
             loop_no: 0, closure_no: 0, if_no: 0, match_no: 0, assert_no: 0, return_no: 0, forpat_no: 0, tmp_no: 0, split_no: 0, spine_no: 0,
             call_no: Default::default(), let_no: Default::default(), hoisted: vec![], log: Default::default(),
             raws: vec![], used_anchors: Default::default(), avail_anchors: Default::default(), errors: vec![],
-            closure_depth: 0, canaries: vec![], str_idents: Default::default(), iter_idents: Default::default(), bind_no: Default::default(), bind_done: Default::default(), mut_slices: vec![], ret_ty: None,
+            closure_depth: 0, canaries: vec![], omap: crate::align::OrdMap::identity(), sigs: Default::default(), woven: Default::default(), pending_loop_sig: None, str_idents: Default::default(), iter_idents: Default::default(), bind_no: Default::default(), bind_done: Default::default(), mut_slices: vec![], ret_ty: None,
         }
     }
     pub fn bump(&mut self, r: &str) {
@@ -73,11 +77,59 @@ impl<'a> Norm<'a> {
         let lit = LitInt::new(&n.to_string(), Span::call_site());
         parse_quote! { __vx_raw!(#lit); }
     }
+    /// record the signature of the node that just received ordinal (kind, current count)
+    pub fn sig(&mut self, kind: &str, node: &impl ToTokens) {
+        self.sigs.entry(kind.to_string()).or_default().push(squash(&ts(node)));
+    }
+    /// baseline ordinal of the n-th current node of `kind` (identity without a baseline)
+    pub fn b(&self, kind: &str, n: usize) -> usize {
+        self.omap.get(kind, n)
+    }
+    /// translate an anchor key phrased with current ordinals into baseline ordinals
+    fn tr_key(&self, key: &str) -> String {
+        fn split_num(s: &str) -> Option<(usize, &str)> {
+            let end = s.find(|c: char| !c.is_ascii_digit()).unwrap_or(s.len());
+            if end == 0 { return None; }
+            Some((s[..end].parse().ok()?, &s[end..]))
+        }
+        for (pre, kind) in [("loop", "loop"), ("if", "if"), ("match", "match"), ("closure", "closure")] {
+            if let Some(rest) = key.strip_prefix(pre) {
+                if let Some((n, tail)) = split_num(rest) { return format!("{}{}{}", pre, self.b(kind, n), tail); }
+            }
+        }
+        for (pre, kind) in [("return#", "return"), ("continue#", "continue"), ("break#", "break")] {
+            if let Some(rest) = key.strip_prefix(pre) {
+                if let Some((n, tail)) = split_num(rest) { return format!("{}{}{}", pre, self.b(kind, n), tail); }
+            }
+        }
+        for pre in ["after-let ", "before-let "] {
+            if let Some(rest) = key.strip_prefix(pre) {
+                let (name, k) = match rest.rsplit_once('#') { Some((nm, k)) => (nm, k.parse::<usize>().unwrap_or(1)), None => (rest, 1) };
+                return format!("{}{}#{}", pre, name, self.b(&format!("let:{}", name), k));
+            }
+        }
+        for pre in ["after.", "before."] {
+            if let Some(rest) = key.strip_prefix(pre) {
+                if let Some((name, k)) = rest.rsplit_once('#') {
+                    if let Ok(k) = k.parse::<usize>() { return format!("{}{}#{}", pre, name, self.b(&format!("call:{}", name), k)); }
+                }
+            }
+        }
+        key.to_string()
+    }
+    fn norm_key(key: &str) -> String {
+        for pre in ["after-let ", "before-let "] {
+            if let Some(rest) = key.strip_prefix(pre) { if !rest.contains('#') { return format!("{}{}#1", pre, rest); } }
+        }
+        key.to_string()
+    }
     fn anchor(&mut self, key: &str) -> Vec<Stmt> {
-        self.avail_anchors.insert(key.to_string());
-        let texts: Vec<String> = self.spec.at.iter().filter(|(a, _)| a == key).map(|(_, t)| t.clone()).collect();
+        let key = Self::norm_key(&self.tr_key(key));
+        if !self.woven.insert(key.clone()) { return vec![]; }
+        self.avail_anchors.insert(key.clone());
+        let texts: Vec<String> = self.spec.at.iter().filter(|(a, _)| Self::norm_key(a) == key).map(|(_, t)| t.clone()).collect();
         if !texts.is_empty() {
-            self.used_anchors.insert(key.to_string());
+            for (a, _) in self.spec.at.iter().filter(|(a, _)| Self::norm_key(a) == key) { self.used_anchors.insert(a.clone()); }
         }
         texts.iter().map(|t| self.raw_stmt(t)).collect()
     }
@@ -131,7 +183,8 @@ impl<'a> Norm<'a> {
                     self.visit_expr_mut(a);
                 }
                 self.assert_no += 1;
-                let n = self.assert_no;
+                self.sig("assert", &mac.tokens);
+                let n = self.b("assert", self.assert_no);
                 let cond: Expr = if name.ends_with("_eq") {
                     let (a, b) = (&args[0], &args[1]);
                     parse_quote!(#a == #b)
@@ -609,8 +662,9 @@ impl<'a> VisitMut for Norm<'a> {
             // R-FORLOOP (@forloop K): Rust's own desugaring of `for`, with the VxIter model as the iterator:
             // `'l: for P in E { B }` -> `let mut __vx_forK = E.into_iter(); 'l: loop { let Some(P) = __vx_forK.next() else { break; }; B }`
             if let Stmt::Expr(Expr::ForLoop(f), semi) = &s {
-                let n = self.loop_no + 1;
+                let n = self.b("loop", self.loop_no + 1);
                 if self.spec.forloop.contains(&n) {
+                    self.pending_loop_sig = Some(squash(&format!("for {} in {}", ts(&f.pat), ts(&f.expr))));
                     let itv = Ident::new(&format!("__vx_for{}", n), Span::call_site());
                     let (pat, ex, body, label) = (&f.pat, &f.expr, &f.body.stmts, &f.label);
                     let mut first: Stmt = match &**ex {
@@ -673,6 +727,8 @@ impl<'a> VisitMut for Norm<'a> {
                 let name = first_ident(&l.pat);
                 if let Some(name) = name {
                     let k = { let k = self.let_no.entry(name.clone()).or_default(); *k += 1; *k };
+                    let init_txt = l.init.as_ref().map(|i| ts(&i.expr)).unwrap_or_default();
+                    self.sigs.entry(format!("let:{}", name)).or_default().push(squash(&init_txt));
                     before.extend(self.anchor(&format!("before-let {}#{}", name, k)));
                     if k == 1 { before.extend(self.anchor(&format!("before-let {}", name))); }
                     after.extend(self.anchor(&format!("after-let {}#{}", name, k)));
@@ -729,6 +785,8 @@ impl<'a> VisitMut for Norm<'a> {
             };
             if let Some(nm) = callee {
                 let k = { let k = self.call_no.entry(nm.clone()).or_default(); *k += 1; *k };
+                let call_txt = match &s { Stmt::Expr(e, _) => ts(e), _ => String::new() };
+                self.sigs.entry(format!("call:{}", nm)).or_default().push(squash(&call_txt));
                 before.extend(self.anchor(&format!("before.{}#{}", nm, k)));
                 after.extend(self.anchor(&format!("after.{}#{}", nm, k)));
             }
@@ -792,7 +850,8 @@ impl<'a> VisitMut for Norm<'a> {
                     }
                 }
                 if let Expr::Let(l) = &*w.cond {
-                    if self.spec.whilelet.contains(&(self.loop_no + 1)) {
+                    if self.spec.whilelet.contains(&self.b("loop", self.loop_no + 1)) {
+                        self.pending_loop_sig = Some(squash(&format!("while let {} = {}", ts(&l.pat), ts(&l.expr))));
                         let (pat, ex) = (&l.pat, &l.expr);
                         let body = &w.body.stmts;
                         let label = &w.label;
@@ -858,6 +917,8 @@ impl<'a> VisitMut for Norm<'a> {
             Expr::While(w) => {
                 self.loop_no += 1;
                 let n = self.loop_no;
+                let sg = squash(&format!("while {}", ts(&w.cond)));
+                self.sigs.entry("loop".into()).or_default().push(sg);
                 self.visit_expr_mut(&mut w.cond);
                 self.visit_block_mut(&mut w.body);
                 self.finish_loop(n, &mut w.body);
@@ -866,6 +927,8 @@ impl<'a> VisitMut for Norm<'a> {
             Expr::Loop(l) => {
                 self.loop_no += 1;
                 let n = self.loop_no;
+                let sg = self.pending_loop_sig.take().unwrap_or_else(|| "loop".to_string());
+                self.sigs.entry("loop".into()).or_default().push(sg);
                 self.visit_block_mut(&mut l.body);
                 // loopN.head anchor placeholder inserted by R-WHILELET
                 let head = format!("__vx_anchor_loop{}_head", n);
@@ -891,6 +954,8 @@ impl<'a> VisitMut for Norm<'a> {
             Expr::ForLoop(f) => {
                 self.loop_no += 1;
                 let n = self.loop_no;
+                let sg = squash(&format!("for {} in {}", ts(&f.pat), ts(&f.expr)));
+                self.sigs.entry("loop".into()).or_default().push(sg);
                 self.visit_expr_mut(&mut f.expr);
                 // R-ITER(for-ref), opt-in (`@opt forref`): `for P in &E` is `for P in E.iter()` for every std collection
                 let mut forref = false;
@@ -924,13 +989,13 @@ impl<'a> VisitMut for Norm<'a> {
                     let ex = &f.expr;
                     *f.expr = parse_quote!(#ex.into_vec());
                     self.bump("R-ITER(for)");
-                } else if self.spec.foriter.contains(&n) {
+                } else if self.spec.foriter.contains(&self.b("loop", n)) {
                     // R-FORITER: `for P in E` over a modelled collection (by reference) -> `for P in E.vx_iter().into_vec()`
                     let ex = &f.expr;
                     *f.expr = parse_quote!(#ex.vx_iter().into_vec());
                     self.bump("R-FORITER");
                 }
-                if let Some(lbl) = self.spec.loop_labels.get(&n) {
+                if let Some(lbl) = self.spec.loop_labels.get(&self.b("loop", n)) {
                     let w = Ident::new(&format!("__vx_it_{}", lbl), Span::call_site());
                     let ex = &f.expr;
                     *f.expr = parse_quote!(#w(#ex));
@@ -942,6 +1007,7 @@ impl<'a> VisitMut for Norm<'a> {
             Expr::If(i) => {
                 self.if_no += 1;
                 let n = self.if_no;
+                self.sig("if", &i.cond);
                 self.visit_expr_mut(&mut i.cond);
                 self.visit_block_mut(&mut i.then_branch);
                 let s0 = self.anchor(&format!("if{}.then.start", n));
@@ -989,6 +1055,7 @@ impl<'a> VisitMut for Norm<'a> {
             Expr::Match(m) => {
                 self.match_no += 1;
                 let n = self.match_no;
+                self.sig("match", &m.expr);
                 self.visit_expr_mut(&mut m.expr);
                 // R-SLICEPAT on match arms over a slice
                 let has_slice = m.arms.iter().any(|a| matches!(a.pat, Pat::Slice(_)));
@@ -1034,12 +1101,14 @@ impl<'a> VisitMut for Norm<'a> {
             Expr::Closure(c) => {
                 self.closure_no += 1;
                 let n = self.closure_no;
+                { let c0: &ExprClosure = c; self.sig("closure", c0); }
+                let bn = self.b("closure", n);
                 self.closure_depth += 1;
                 let saved = std::mem::take(&mut self.hoisted);
                 self.visit_expr_mut(&mut c.body);
                 let inner_hoisted = std::mem::replace(&mut self.hoisted, saved);
                 self.closure_depth -= 1;
-                if let Some(cs) = self.spec.closures.get(&n).cloned() {
+                if let Some(cs) = self.spec.closures.get(&bn).cloned() {
                     let typed: Vec<FnArg> = cs.params.iter().filter_map(|p| parse_str::<FnArg>(p.trim()).ok()).collect();
                     if typed.len() != c.inputs.len() {
                         self.errors.push(format!("closure {} of {}: {} params in source, {} in spec", n, self.fname, c.inputs.len(), typed.len()));
@@ -1077,7 +1146,7 @@ impl<'a> VisitMut for Norm<'a> {
                     match &**body { Expr::Block(b) if b.label.is_none() => blk.stmts.extend(b.block.stmts.clone()), other => blk.stmts.push(Stmt::Expr(other.clone(), None)) }
                     c.body = Box::new(Expr::Block(ExprBlock { attrs: vec![], label: None, block: blk }));
                     c.output = ReturnType::Default;
-                    let var = Ident::new(&format!("__c{}", n), Span::call_site());
+                    let var = Ident::new(&format!("__c{}", bn), Span::call_site());
                     let clos = c.clone();
                     self.hoisted.push(parse_quote!(let #var = #clos;));
                     *e = parse_quote!(#var);
@@ -1089,6 +1158,7 @@ impl<'a> VisitMut for Norm<'a> {
             Expr::Return(r) => {
                 self.return_no += 1;
                 let n = self.return_no;
+                { let r0: &ExprReturn = r; self.sig("return", r0); }
                 if let Some(x) = &mut r.expr { self.visit_expr_mut(x); }
                 let pre = self.anchor(&format!("return#{}", n));
                 let can = if self.closure_depth == 0 { self.canary_stmt(&format!("return#{}", n)) } else { None };
